@@ -108,6 +108,7 @@ class Hist:
         self.fails: List[tuple] = []
         self.reads_after_mutation = 0
         self.dirty = False
+        self.broken: Optional[dict] = None  # an op on which pyhap raised unexpectedly
 
     def fail(self, sig, desc):
         if not any(s == sig for s, _ in self.fails):
@@ -155,7 +156,55 @@ class Hist:
 
     # ------------------------------------------------------------------ operations
 
+    def others_snapshot(self, target) -> Dict[int, Any]:
+        """From-scratch metadata rendering + stored value + name of every characteristic but `target`."""
+        rig = self.rig
+        snap = {}
+        for key, acc, s, c in self.chars():
+            if c is target:
+                continue
+            try:
+                meta = ref.render_char(c, acc.iid_manager, False, rig.loader_names.get(id(c)))
+            except Exception as ex:  # noqa: BLE001
+                meta = {"unrenderable": type(ex).__name__}
+            snap[rig.num(c)] = (copy.deepcopy(meta), copy.deepcopy(c.value))
+        return snap
+
+    def guarded(self, op: dict):
+        """Run one op; an exception coming out of pyhap is an observation (recorded, the history
+        stops there), anything else is a harness bug and propagates."""
+        n_ops, n_lines, n_outs = len(self.ops), len(self.lines), len(self.outs)
+        try:
+            self._apply(op)
+        except Exception as ex:  # noqa: BLE001
+            if not dbrig.from_pyhap(ex):
+                raise
+            del self.ops[n_ops:], self.lines[n_lines:], self.outs[n_outs:]
+            self.broken = {"op": op, "raised": type(ex).__name__, "message": str(ex)[:200]}
+
     def apply(self, op: dict):
+        if self.broken is not None:
+            return
+        k = op["op"]
+        if k in ("set_value", "client_write", "override", "display_name", "getter"):
+            target = self.rig.objs[op["obj"]]
+            before = self.others_snapshot(target)
+            self.guarded(op)
+            after = self.others_snapshot(target)
+            for n, (meta, val) in before.items():
+                meta2, val2 = after.get(n, (None, None))
+                if not ref.same(meta, meta2) or not ref.same(val, val2):
+                    what = ref.first_difference(meta, meta2) or f"value {val!r} -> {val2!r}"
+                    self.fail(
+                        "C11:other-characteristic-changed",
+                        f"{k} addressed to characteristic #{op['obj']} changed the from-scratch rendering of "
+                        f"characteristic #{n}: {what} (before / after)",
+                    )
+                    break
+        else:
+            self.guarded(op)
+
+    def _apply(self, op: dict):
         self.ops.append(op)
         rig = self.rig
         k = op["op"]
@@ -242,7 +291,7 @@ class Hist:
         self.lines.append({"op": "readAll", "incl": incl, "g": g})
         try:
             want = ref.render_db(rig.top, incl, rig.loader_names)
-        except ref.Raises:
+        except Exception:  # noqa: BLE001 - a getter raises / the state cannot be rendered at all
             want = None
         if op.get("via") == "handler" and incl:
             status, doc = rig.http("GET", "/accessories")
@@ -280,7 +329,10 @@ class Hist:
             if isinstance(obj, Characteristic) and obj.getter_callback:
                 g.append([pos, getter_outcome(obj)])
         self.lines.append({"op": "readChars", "ids": [list(p) for p in ids], "g": g})
-        want = ref.expected_read(rig.top, ids)
+        try:
+            want = ref.expected_read(rig.top, ids)
+        except Exception:  # noqa: BLE001 - the state cannot be walked: nothing to demand
+            want = None
         status, doc = rig.http("GET", "/characteristics?id=" + ",".join(f"{a}.{i}" for a, i in ids))
         if self.dirty:
             self.reads_after_mutation += 1
@@ -288,6 +340,8 @@ class Hist:
         if status not in (200, 207) or not isinstance(entries, list):
             self.fail("C11:characteristics-read-failed", f"GET /characteristics for {ids} answered {status}")
             return {"code": status, "characteristics": None}
+        if want is None:
+            return {"code": status, "characteristics": canon(entries)}
         # entries for ids of existing accessories (anything the server adds for unknown accessories is not judged)
         known = {a for a, _ in ((w["aid"], 0) for w in want)}
         judged = [e for e in entries if e.get("aid") in known]
@@ -427,12 +481,29 @@ BOUNDARY_PROGRAMS = [
     ["read_one", "read_many", ("getter", "raise"), "read_many", "read_unknown", "read_all"],
     # an override whose re-validation raises TypeError after the properties were updated
     ["read_all_nv", "read_all", ("override_bad",), "read_all_nv", "read_all", "read_one"],
+    # same-typed characteristics (one loader): fill the caches, override exactly one instance, read the
+    # siblings, update a sibling's value, read again
+    ["siblings", "read_all", "read_all_nv", ("override",), "read_all", "read_all_nv", "read_sib", ("sib_set_value",),
+     "read_all", "read_sib", ("override",), ("sib_set_value",), "read_sib", "read_all"],
 ]
+
+
+def sibling_cfg(rng, pool) -> dict:
+    """The same shipped service on several bridged accessories and twice on one accessory."""
+    numeric_first = ["TemperatureSensor", "Lightbulb", "HumiditySensor", "Thermostat", "Fanv2", "LightSensor", "WindowCovering"]
+    name = rng.choice(numeric_first) if rng.random() < 0.7 else rng.choice(pool)["svc"]
+    row = next(r for r in pool if r["svc"] == name)
+    opt = [c for c in row["optional"] if rng.random() < 0.3][:2]
+    spec = {"svc": name, "opt": opt}
+    accs = [{"aid": None, "specs": [dict(spec)] + ([dict(spec)] if i == 0 and rng.random() < 0.5 else [])}
+            for i in range(rng.choice([2, 2, 3]))]
+    main = [dict(spec)] if rng.random() < 0.3 else []
+    return {"bridge": True, "mainAid": 1, "main": main, "accs": accs}
 
 
 def gen_history(ctx: Ctx, pool, program=None, n_ops: Optional[int] = None) -> Hist:
     rng = ctx.rng
-    cfg = random_cfg(rng, pool)
+    cfg = sibling_cfg(rng, pool) if (program is not None and "siblings" in program) or (program is None and rng.random() < 0.2) else random_cfg(rng, pool)
     h = Hist(cfg)
     rig = h.rig
     live = [(key, acc, s, c) for key, acc, s, c in h.chars()]
@@ -485,11 +556,29 @@ def gen_history(ctx: Ctx, pool, program=None, n_ops: Optional[int] = None) -> Hi
         if ("override_bad",) in program:
             numeric = [x for x in cands if x[3].properties["Format"] in ref.NUMERIC_FORMATS and not x[3].properties.get("ValidValues")]
             cands = numeric or cands
+        if "siblings" in program:
+            # a characteristic type that occurs at least twice outside the information service
+            by_type: Dict[str, list] = {}
+            for x in live:
+                if x[2] is not x[1].services[0]:
+                    by_type.setdefault(str(x[3].type_id), []).append(x)
+            multi = [v for v in by_type.values() if len(v) >= 2]
+            if multi:
+                group = rng.choice(multi)
+                cands = [group[rng.randrange(len(group))]]
         t = cands[rng.randrange(len(cands))]
         key, acc, s, c = t
         n = rig.num(c)
+        sibs = [x for x in live if x[3] is not c and x[3].type_id == c.type_id] or [t]
         for step in program:
-            if step == "read_all":
+            if step == "siblings":
+                continue
+            if step == "read_sib":
+                h.apply({"op": "read_chars", "ids": [pair_of(x) for x in sibs[:4]]})
+            elif step[0] == "sib_set_value":
+                sc = rng.choice(sibs)[3]
+                h.apply({"op": "set_value", "obj": rig.num(sc), "value": _other_value(rng, sc)})
+            elif step == "read_all":
                 h.apply({"op": "read_all", "incl": True, "via": rng.choice(["driver", "handler"])})
             elif step == "read_all_nv":
                 h.apply({"op": "read_all", "incl": False})
@@ -574,18 +663,28 @@ def judge(ctx: Ctx, h: Hist):
         ctx.fail(sig, desc, minimise(h, sig))
 
 
+def safe_history(ctx: Ctx, pool, program=None) -> Optional[Hist]:
+    """A generated history; None (plus a recorded disagreement) if pyhap cannot even build the
+    configuration from the shipped definitions."""
+    try:
+        h = gen_history(ctx, pool, program=program)
+    except Exception as ex:  # noqa: BLE001
+        if not dbrig.from_pyhap(ex):
+            raise
+        ctx.disagree("c11-construction", {"program": program}, "configuration is built", f"pyhap raised {type(ex).__name__}: {str(ex)[:160]}")
+        return None
+    h.rig.close()
+    return h
+
+
 def generate(ctx: Ctx, pool, n_random: int) -> List[Hist]:
     hs = []
     for prog in BOUNDARY_PROGRAMS:
         for _ in range(ctx.n(3, 12)):
-            h = gen_history(ctx, pool, program=prog)
-            h.rig.close()
-            hs.append(h)
+            hs.append(safe_history(ctx, pool, program=prog))
     for _ in range(n_random):
-        h = gen_history(ctx, pool)
-        h.rig.close()
-        hs.append(h)
-    return hs
+        hs.append(safe_history(ctx, pool))
+    return [h for h in hs if h is not None]
 
 
 def run(ctx: Ctx):
@@ -606,6 +705,13 @@ def run(ctx: Ctx):
     for h, m in zip(hs, model):
         judge(ctx, h)
         st.traces_validated += 1
+        if h.broken is not None:
+            st.hit("outcome", "op-raised:" + h.broken["raised"])
+            ctx.disagree(
+                "c11-op-raised", {"cfg": h.cfg, "ops": h.ops + [h.broken["op"]]},
+                "the operation completes (or fails with its documented error)",
+                f"pyhap raised {h.broken['raised']}: {h.broken['message']}",
+            )
         st.case([h.cfg, h.ops], h.reads_after_mutation > 0)
         for op, out in zip(h.ops, h.outs):
             st.hit("op", op["op"] + (":no-value" if op["op"] == "read_all" and not op["incl"] else ""))
@@ -627,7 +733,7 @@ def run(ctx: Ctx):
                     _short(io if not isinstance(io, dict) or "accessories" not in io else "(see hint)"),
                 )
                 break
-    for i in (0, len(BOUNDARY_PROGRAMS) * ctx.n(3, 12), len(hs) - 1):
+    for i in sorted({0, min(len(BOUNDARY_PROGRAMS) * ctx.n(3, 12), len(hs) - 1), len(hs) - 1} if hs else set()):
         h, m = hs[i], model[i]
         st.sample(
             {
@@ -665,8 +771,9 @@ def search(ctx: Ctx):
 
     pool = dbrig.spec_pool(Loader())
     for i in range(1500):
-        h = gen_history(ctx, pool, program=BOUNDARY_PROGRAMS[i % len(BOUNDARY_PROGRAMS)] if i % 4 == 0 else None)
-        h.rig.close()
+        h = safe_history(ctx, pool, program=BOUNDARY_PROGRAMS[i % len(BOUNDARY_PROGRAMS)] if i % 4 == 0 else None)
+        if h is None:
+            continue
         judge(ctx, h)
         if ctx.failures and i > 300:
             break
@@ -677,6 +784,8 @@ def replay(ctx: Ctx, r):
     print("configuration:", json.dumps(r["cfg"])[:400])
     for op, out in zip(h.ops, h.outs):
         print("  ", json.dumps(op)[:160], "->", _short(out, 200) if out is not None else "")
+    if h.broken is not None:
+        print("pyhap raised", h.broken["raised"], "on", json.dumps(h.broken["op"])[:160], "-", h.broken["message"])
     for sig, desc in h.fails:
         print("FAILS:", sig, desc)
     print("verdict:", "property violated on this input" if h.fails else "holds on this input")
